@@ -10,7 +10,7 @@ namespace ElemOk
 variable {T L : Nat} {D : DigestFn L} {cfg : MCfg} {α : Type} {o : ElemsOps α}
   {Inv : Nat → List Nat → α → Prop} {rr : Nat}
 
-theorem keys (S : OpsSpec T L D cfg o Inv rr) {ℓ : Nat} {path : List Nat} {hk : Nat} {e : MElemF α}
+theorem keys (S : OpsStruct T L D o Inv rr) {ℓ : Nat} {path : List Nat} {hk : Nat} {e : MElemF α}
     (h : ElemOk T L D o Inv ℓ path hk e) :
     ∀ p ∈ e.toList o, KeyOk T L D p.1 ∧ p.1.digs.take (ℓ + 1) = path ++ [hk] := by
   cases e with
@@ -18,14 +18,22 @@ theorem keys (S : OpsSpec T L D cfg o Inv rr) {ℓ : Nat} {path : List Nat} {hk 
   | inl g => exact S.keys h.1
   | ext id sz s => exact S.keys h.2.2.2.2.2.1
 
-theorem distinct (S : OpsSpec T L D cfg o Inv rr) {ℓ : Nat} {path : List Nat} {hk : Nat} {e : MElemF α}
+theorem distinct (S : OpsStruct T L D o Inv rr) {ℓ : Nat} {path : List Nat} {hk : Nat} {e : MElemF α}
     (h : ElemOk T L D o Inv ℓ path hk e) : KeysDistinct (e.toList o) := by
   cases e with
   | single x => simp [MElemF.toList, KeysDistinct]
   | inl g => exact S.distinct h.1
   | ext id sz s => exact S.distinct h.2.2.2.2.2.1
 
-theorem toList_ne_nil (S : OpsSpec T L D cfg o Inv rr) {ℓ : Nat} {path : List Nat} {hk : Nat} {e : MElemF α}
+theorem ordered (S : OpsStruct T L D o Inv rr) {ℓ : Nat} {path : List Nat} {hk : Nat} {e : MElemF α}
+    (h : ElemOk T L D o Inv ℓ path hk e) :
+    ((e.toList o).map (fun p => p.1.digs)).Pairwise (fun a b => a = b ∨ List.Lex (· < ·) a b) := by
+  cases e with
+  | single x => simp [MElemF.toList]
+  | inl g => exact S.ordered h.1
+  | ext id sz s => exact S.ordered h.2.2.2.2.2.1
+
+theorem toList_ne_nil (S : OpsStruct T L D o Inv rr) {ℓ : Nat} {path : List Nat} {hk : Nat} {e : MElemF α}
     (h : ElemOk T L D o Inv ℓ path hk e) : e.toList o ≠ [] := by
   cases e with
   | single x => simp [MElemF.toList]
@@ -73,7 +81,7 @@ theorem get (S : OpsSpec T L D cfg o Inv rr) (hc : CfgFor cfg T L) {ℓ : Nat} {
     exact S.get h.2.2.2.2.2.1 hkk hp
 
 /-- a group with at least two keys has a positive count and is not a sole single element -/
-theorem grp_of_two (S : OpsSpec T L D cfg o Inv rr) {ℓ : Nat} {path : List Nat} {g : α} (hg : Inv ℓ path g)
+theorem grp_of_two (S : OpsStruct T L D o Inv rr) {ℓ : Nat} {path : List Nat} {g : α} (hg : Inv ℓ path g)
     (hlen : 2 ≤ (o.toList g).length) : 1 ≤ o.count g ∧ o.soleSingle g = none := by
   constructor
   · apply (S.count_pos hg).mpr
@@ -104,7 +112,7 @@ theorem inlSet_spec (S : OpsSpec T L D cfg o Inv rr) (hc : CfgFor cfg T L) {ℓ 
         rw [hx] at hAB
         have hm : (k, v0) ∈ [x] := by rw [hAB]; simp
         simp at hm; rw [← hm] at hxk; exact hxk rfl
-  obtain ⟨hcnt, hsole⟩ := grp_of_two S hinv' hlen
+  obtain ⟨hcnt, hsole⟩ := grp_of_two S.toOpsStruct hinv' hlen
   simp only [MElemF.inlSet, hset, if_neg hlev, bind, Except.bind, pure, Except.pure]
   split
   · rename_i hbig
@@ -168,7 +176,7 @@ theorem set (S : OpsSpec T L D cfg o Inv rr) (hT : legalThreshold T = true) (hc 
     obtain ⟨old, g', c', hset, hinv', heff, hctr⟩ := S.set c hg (by omega) hkk hp hv
     have hlen : 2 ≤ (o.toList g').length := by
       have := heff.length_ge; have := S.two_keys hg hcnt hsole; omega
-    obtain ⟨hcnt', hsole'⟩ := grp_of_two S hinv' hlen
+    obtain ⟨hcnt', hsole'⟩ := grp_of_two S.toOpsStruct hinv' hlen
     simp only [MElemF.set, if_neg hlev, hset, bind, Except.bind, pure, Except.pure, MElemF.groupSlabUpdate]
     refine ⟨_, _, _, rfl, ⟨h0, hsz, hid, rfl, rfl, hinv', hcnt', hsole'⟩, heff, ?_, ?_⟩
     · simp [Ctx.emit]; exact hctr
